@@ -61,8 +61,9 @@ impl<'a> Autocompletion<'a> {
     /// Merge this autocompletion with another one
     pub fn merge_autocompletion(&mut self, autocompletion: &str) {
         if autocompletion.is_empty() || self.buffer.is_empty() {
+            // same autocompletion given twice (empty in this case) is still a single variant
             self.partial = self.partial
-                || self.autocompleted.is_some()
+                || self.autocompleted.map_or(false, |current| current > 0)
                 || (self.buffer.is_empty() && !autocompletion.is_empty());
             self.autocompleted = Some(0);
             return;
@@ -85,7 +86,10 @@ impl<'a> Autocompletion<'a> {
             }
         }
 
-        self.partial = self.partial || len < autocompletion.len() || self.autocompleted.is_some();
+        // same autocompletion given twice is still a single variant, so it's not partial
+        self.partial = self.partial
+            || len < autocompletion.len()
+            || self.autocompleted.map_or(false, |current| len < current);
         // SAFETY: we checked that len is no longer than buffer len (and is at most autocompleted len)
         // and these two buffers do not overlap since mutable reference to buffer is exclusive
         unsafe {
